@@ -41,9 +41,9 @@ def modelled(l):
 
 class C08:
     id = 'C08'
-    props_files = ['SmoothProps/C08.lean']
-    props_module = 'SmoothProps.C08'
-    lean_targets = ['SmoothProps.C08']
+    props_files = ['SmoothProps/C08.lean', 'SmoothProps/SrcTieLogicC08.lean']
+    props_module = 'SmoothProps.C08All'
+    lean_targets = ['SmoothProps.C08All']
     rule = ('harness/diff.cpp: callables with closed-form derivatives {prod x*y, log, action x*v, rminus, 0.5|x-y|^2, '
             'sum_i log(v_i) over std::vector<G>, (x*y)*v, polynomial maps R x R3 x R^n -> R^m (incl. affine)} on '
             '{SO3, SE2, SE3, Bundle<SO3,R2>} and, for prod/rminus, on the commutative rotation groups {SO2, C1, Bundle<SO2,R2>} with '
